@@ -173,6 +173,11 @@ def decide(prop, tier, seed):
         json.dump(rep, open(path, "w"), indent=1)
         lines.append("VIOLATION property=%s replay=%s%s" % (prop, path, suffix))
 
+    # obligations listed as known findings are expected to fail: they are reported separately and are not
+    # part of the obligation count of the claim (their restricted twins are)
+    kf_names = set(known_full)
+    kf_obs = [o for o in obs if o["name"] in kf_names]
+    obs = [o for o in obs if o["name"] not in kf_names]
     discharged = [o for o in obs if o["status"] == "discharged"]
     proved = [o for o in discharged if not o.get("bounded")]
     bounded = [o for o in discharged if o.get("bounded")]
@@ -198,6 +203,7 @@ def decide(prop, tier, seed):
                                   "clause": o.get("clause", "")} for o in obs],
             "samples": [{"obligation": o["name"], "clause": o.get("clause", "")} for o in obs[:6]],
             "known_findings": known_lines,
+            "known_finding_obligations": [{"name": o["name"], "status": o["status"], "clause": o.get("clause", "")} for o in kf_obs],
             "explanation": man.get("level_note", ""),
             "exhaustive": False,
         },
